@@ -1403,3 +1403,55 @@ func c05BoolEdges(fn *ssa.Function, direct c05BoolFact, depth int) (te, fe []Edg
 	}
 	return
 }
+
+// c05EmptyStrEdges returns the edges of fn on which the string satisfying isX
+// is known empty / non-empty, in every spelling: x == "", "" == x, x != "",
+// len(x) == 0, len(x) != 0, len(x) > 0, len(x) >= 1, len(x) < 1, len(x) <= 0,
+// the mirrored forms (0 == len(x), 0 < len(x), …), negations (`!`), and a
+// one-line boolean helper wrapping such a comparison.
+func c05EmptyStrEdges(fn *ssa.Function, isX func(v ssa.Value) bool) (empty, nonEmpty []Edge) {
+	isEmptyConst := func(v ssa.Value) bool { s, ok := constString(v); return ok && s == "" }
+	eq, ne := c05EqEdges(fn, isX, isEmptyConst)
+	empty, nonEmpty = append(empty, eq...), append(nonEmpty, ne...)
+	isLen := func(v ssa.Value) bool {
+		call, ok := strip(v).(*ssa.Call)
+		return ok && CalleeName(call) == "builtin:len" && len(call.Call.Args) == 1 && isX(call.Call.Args[0])
+	}
+	for _, i := range Ifs(fn) {
+		cond, t, f := ifEdges(i)
+		bo, ok := cond.(*ssa.BinOp)
+		if !ok {
+			continue
+		}
+		op, x, k := bo.Op, bo.X, bo.Y
+		if !isLen(x) {
+			if !isLen(bo.Y) {
+				continue
+			}
+			x, k = bo.Y, bo.X // k OP len  ->  len OP' k
+			switch op {
+			case token.LSS:
+				op = token.GTR
+			case token.GTR:
+				op = token.LSS
+			case token.LEQ:
+				op = token.GEQ
+			case token.GEQ:
+				op = token.LEQ
+			}
+		}
+		_ = x
+		n, isConst := constInt(k)
+		if !isConst {
+			continue
+		}
+		// a length is never negative: len == 0 <=> len <= 0 <=> len < 1; len != 0 <=> len > 0 <=> len >= 1
+		switch {
+		case op == token.EQL && n == 0, op == token.LEQ && n == 0, op == token.LSS && n == 1:
+			empty, nonEmpty = append(empty, t), append(nonEmpty, f)
+		case op == token.NEQ && n == 0, op == token.GTR && n == 0, op == token.GEQ && n == 1:
+			empty, nonEmpty = append(empty, f), append(nonEmpty, t)
+		}
+	}
+	return
+}
